@@ -198,6 +198,27 @@ def _payload_ok(src, real_in_flat, got):
     return bool(np.array_equal(want, got))
 
 
+# the TYPE of the entries of a target shape / kernel shape is a dimension of the instance realisation: the same shape is
+# handed over as Python ints, a list, signed / unsigned numpy scalars or a numpy integer array, rotating over instances
+SHAPE_TYPES = ["tuple_int", "list", "np_int64", "np_int32", "np_uint8", "np_uint16", "np_uint64", "np_int64_array",
+               "np_uint16_array"]
+_SHAPE_SALT = [0]
+
+
+def _shape_type(h, w, a, b, salt):
+    return SHAPE_TYPES[(7 * h + 13 * w + 3 * a + 5 * b + salt + _SHAPE_SALT[0]) % len(SHAPE_TYPES)]
+
+
+def _shape_as(kind, a, b):
+    if kind == "tuple_int":
+        return (int(a), int(b))
+    if kind == "list":
+        return [int(a), int(b)]
+    if kind.endswith("_array"):
+        return np.array([a, b], dtype=getattr(np, kind[3:-6]))
+    return tuple(getattr(np, kind[3:])(x) for x in (a, b))
+
+
 def _base(api, h, w, u, g):
     return {"p": "C14", "api": api, "h": h, "w": w, "u": [int(x) for x in u],
             "hy": g["hy"], "hx": g["hx"], "oy": g["oy"], "ox": g["ox"], "tau": g["tau"]}
@@ -247,7 +268,8 @@ def rec_resize_array(h, w, u, h2, w2, mpad, g, rng):
 
     ok = [True]
     rec = _base("resize_array", h, w, u, g)
-    rec.update({"h2": h2, "w2": w2, "mpad": mpad})
+    st = _shape_type(h, w, h2, w2, 1 + mpad)
+    rec.update({"h2": h2, "w2": w2, "mpad": mpad, "shape_type": st})
 
     def body():
         mask = _mask(h, w, u, g)
@@ -255,8 +277,8 @@ def rec_resize_array(h, w, u, h2, w2, mpad, g, rng):
         a = aa.Array2D(values=_tags(h, w), mask=mask)
         b = aa.Array2D(values=real, mask=mask)
         rec["gin_y"], rec["gin_x"] = _all_coords(a.mask, g["tau"], ok)
-        _array_result(rec, a.resized_from(new_shape=(h2, w2), mask_pad_value=mpad), h * w, g["tau"], ok,
-                      b.resized_from(new_shape=(h2, w2), mask_pad_value=mpad), real)
+        _array_result(rec, a.resized_from(new_shape=_shape_as(st, h2, w2), mask_pad_value=mpad), h * w, g["tau"], ok,
+                      b.resized_from(new_shape=_shape_as(st, h2, w2), mask_pad_value=mpad), real)
 
     return _guard(rec, ok, body)
 
@@ -264,11 +286,12 @@ def rec_resize_array(h, w, u, h2, w2, mpad, g, rng):
 def rec_resize_mask(h, w, u, h2, w2, pad, g):
     ok = [True]
     rec = _base("resize_mask", h, w, u, g)
-    rec.update({"h2": h2, "w2": w2, "pad": pad})
+    st = _shape_type(h, w, h2, w2, 3 + pad)
+    rec.update({"h2": h2, "w2": w2, "pad": pad, "shape_type": st})
 
     def body():
         mask = _mask(h, w, u, g)
-        res = mask.resized_from(new_shape=(h2, w2), pad_value=pad)
+        res = mask.resized_from(new_shape=_shape_as(st, h2, w2), pad_value=pad)
         rec.update({"oh": int(res.shape[0]), "ow": int(res.shape[1]), "um": _um(res)})
         rec["gin_y"], rec["gin_x"] = _all_coords(mask, g["tau"], ok)
         rec["gout_y"], rec["gout_x"] = _all_coords(res, g["tau"], ok)
@@ -281,7 +304,8 @@ def rec_grow_shrink(h, w, u, h2, w2, mpad, g, rng):
 
     ok = [True]
     rec = _base("grow_shrink", h, w, u, g)
-    rec.update({"h2": h2, "w2": w2, "mpad": mpad})
+    st = _shape_type(h, w, h2, w2, 5 + mpad)
+    rec.update({"h2": h2, "w2": w2, "mpad": mpad, "shape_type": st})
 
     def body():
         mask = _mask(h, w, u, g)
@@ -289,7 +313,8 @@ def rec_grow_shrink(h, w, u, h2, w2, mpad, g, rng):
         a = aa.Array2D(values=_tags(h, w), mask=mask)
         b = aa.Array2D(values=real, mask=mask)
         rec["gin_y"], rec["gin_x"] = _all_coords(a.mask, g["tau"], ok)
-        f = lambda x: x.resized_from(new_shape=(h2, w2), mask_pad_value=mpad).resized_from(new_shape=(h, w))
+        f = lambda x: x.resized_from(new_shape=_shape_as(st, h2, w2), mask_pad_value=mpad) \
+            .resized_from(new_shape=_shape_as(st, h, w))
         _array_result(rec, f(a), h * w, g["tau"], ok, f(b), real)
 
     return _guard(rec, ok, body)
@@ -301,7 +326,8 @@ def rec_kernel(api, h, w, u, kh, kw, mpad, g, rng):
 
     ok = [True]
     rec = _base(api, h, w, u, g)
-    rec.update({"kh": kh, "kw": kw, "mpad": mpad})
+    st = _shape_type(h, w, kh, kw, {"pad": 0, "trim": 4, "pad_trim": 8}.get(api, 0) + mpad)
+    rec.update({"kh": kh, "kw": kw, "mpad": mpad, "shape_type": st})
 
     def body():
         mask = _mask(h, w, u, g)
@@ -310,12 +336,12 @@ def rec_kernel(api, h, w, u, kh, kw, mpad, g, rng):
         b = aa.Array2D(values=real, mask=mask)
         rec["gin_y"], rec["gin_x"] = _all_coords(a.mask, g["tau"], ok)
         if api == "pad":
-            f = lambda x: x.padded_before_convolution_from(kernel_shape=(kh, kw), mask_pad_value=mpad)
+            f = lambda x: x.padded_before_convolution_from(kernel_shape=_shape_as(st, kh, kw), mask_pad_value=mpad)
         elif api == "trim":
-            f = lambda x: x.trimmed_after_convolution_from(kernel_shape=(kh, kw))
+            f = lambda x: x.trimmed_after_convolution_from(kernel_shape=_shape_as(st, kh, kw))
         else:
-            f = lambda x: x.padded_before_convolution_from(kernel_shape=(kh, kw), mask_pad_value=mpad) \
-                .trimmed_after_convolution_from(kernel_shape=(kh, kw))
+            f = lambda x: x.padded_before_convolution_from(kernel_shape=_shape_as(st, kh, kw), mask_pad_value=mpad) \
+                .trimmed_after_convolution_from(kernel_shape=_shape_as(st, kh, kw))
         _array_result(rec, f(a), h * w, g["tau"], ok, f(b), real)
 
     return _guard(rec, ok, body)
@@ -537,6 +563,7 @@ def _rng_for(inst, seed):
 def records_for(inst, seed=0, full_variants=True):
     """full_variants=False (quick tier): one seeded mask pad value per call instead of both."""
     rng = _rng_for(inst, seed)
+    _SHAPE_SALT[0] = int(seed) % 997  # the rotation of shape-entry types shifts with the seed
     kind, h, w = inst["kind"], inst["h"], inst["w"]
     full = list(range(h * w))
     out = []
@@ -858,7 +885,7 @@ def validate(ctx, records, tag, chunk=1500):
             rejects.extend(rej)
     for rj in rejects:
         rec = records[rj["id"]]
-        extra = {k: rec[k] for k in ("h2", "w2", "kh", "kw", "b", "mpad", "pad") if k in rec}
+        extra = {k: rec[k] for k in ("h2", "w2", "kh", "kw", "b", "mpad", "pad", "shape_type") if k in rec}
         if rec["api"] == "mask_history":
             extra["masks"] = [st["m"] for st in rec["steps"]]
         if rec["api"] == "zoom_history":
@@ -905,7 +932,7 @@ def run(ctx):
                   "random_histories": n_rand_hist, "random_history_bounds": "frames <= 12x15, 2..7 steps, buffers 0..3",
                   "random_instances(resize,kernel,mask)": n_rand,
                   "random_bounds": "inputs <= 12x12, targets <= 15x15, kernels <= 11x11, masks <= 9x9, buffers <= 3",
-                  "tick_lengths": TICKS}
+                  "tick_lengths": TICKS, "shape_entry_types_rotated_over_instances": SHAPE_TYPES}
     import concurrent.futures as cf
 
     with cf.ThreadPoolExecutor(max_workers=3) as ex:  # the three bounded machines are explored side by side
@@ -942,6 +969,9 @@ def run(ctx):
         "abstracted to a tick lattice; off-lattice values are rejected, not rounded",
         "a parity-changing resize may take either of the two centred offsets; coordinates are judged only when parity is preserved",
         "zoom is judged on window content only (its coordinate origin belongs to C12)",
+        "target shapes / kernel shapes are handed to resized_from / padded_before_convolution_from / trimmed_after_convolution_from "
+        "with rotating entry types (Python ints, list, numpy int64/int32/uint8/uint16/uint64 scalars, int64 and uint16 arrays); "
+        "the expectation does not depend on the type",
         "masking histories: ds.apply_mask(a1).apply_mask(a2)... on one Imaging dataset, every mask given on the original frame; "
         "each result is judged against the ORIGINAL unmasked data (its own mask only), as a single automatic padding would be",
         "histories: one Mask2D object is zoomed (through a new Array2D per zoom), edited in place with mask[y,x]=bool, read "
